@@ -1,6 +1,7 @@
 package ai
 
 import (
+	"fmt"
 	"go/token"
 	"go/types"
 	"strings"
@@ -414,6 +415,9 @@ func (f *frame) builtin(st *State, x *ssa.Call, b *ssa.Builtin, args []Value) Va
 		r.Lo = 0
 		return r.normalize()
 	case "append":
+		if r := f.appendSmall(st, x, args); r != nil {
+			return r
+		}
 		// result: an opaque slice summarising old and new elements
 		o := it.ObjectFor(x, x.Type(), siteName(x), ModeOpaque)
 		ln := NewTopInt(64, true, depsOfAll(args))
@@ -462,3 +466,56 @@ func (f *frame) builtin(st *State, x *ssa.Call, b *ssa.Builtin, args []Value) Va
 }
 
 var _ = token.ADD
+
+// appendSmall models append exactly when both operands have small constant lengths (tables built
+// element by element): the result is a fresh array holding the old elements followed by the new ones.
+func (f *frame) appendSmall(st *State, x *ssa.Call, args []Value) Value {
+	it := f.it
+	if len(args) != 2 {
+		return nil
+	}
+	st0, ok := x.Type().Underlying().(*types.Slice)
+	if !ok {
+		return nil
+	}
+	elem := st0.Elem()
+	type part struct {
+		s *Slice
+		n int64
+	}
+	var parts []part
+	total := int64(0)
+	for _, a := range args {
+		switch v := a.(type) {
+		case *NilV:
+			parts = append(parts, part{nil, 0})
+		case *Slice:
+			n, ok1 := v.Len.Const()
+			off, ok2 := v.Off.Const()
+			if !ok1 || !ok2 || off != 0 || n < 0 {
+				return nil
+			}
+			parts = append(parts, part{v, n})
+			total += n
+		default:
+			return nil
+		}
+	}
+	if total > 64 {
+		return nil
+	}
+	it.appendSeq++
+	o := it.NewObject(fmt.Sprintf("append@%s#%d", siteName(x), it.appendSeq), types.NewArray(elem, total), ModeZero)
+	st.ResetObject(o, ModeZero)
+	k := int64(0)
+	for _, p := range parts {
+		for i := int64(0); i < p.n; i++ {
+			v := st.LoadPtr(&Ptr{Obj: p.s.Obj, Path: fmt.Sprintf("%s[%d]", p.s.Path, i), Elem: elem})
+			st.StorePtr(&Ptr{Obj: o, Path: fmt.Sprintf("[%d]", k), Elem: elem}, v)
+			k++
+		}
+	}
+	ln := NewConstInt(64, true, total)
+	ln.IsLen = o
+	return &Slice{Obj: o, Path: "", Off: NewConstInt(64, true, 0), Len: ln, Elem: elem}
+}
